@@ -22,6 +22,7 @@ struct Obs {
     removes: usize,
     qty_exec: u128,
     val_exec: u128,
+    fate: HashMap<OrderId, &'static str>, // C08: resting / removed / filled - every order handed in has exactly one
 }
 
 fn c01(l: &PriceLevel, rep: &mut Report, step: usize, what: &str, legs: bool) {
@@ -63,7 +64,8 @@ pub fn run(v: &serde_json::Value, rep: &mut Report) -> Result<(), String> {
     let ns = uuid::Uuid::parse_str("6ba7b810-9dad-11d1-80b4-00c04fd430c8").unwrap();
     let mut level = PriceLevel::new(price);
     let mut twin: Option<(PriceLevel, UuidGenerator)> = None; // restored copy run in lock-step (C11)
-    // true when, at the moment of the snapshot, the listing order WAS the queue order: then the proved half of C11
+    // true when, at the moment of the snapshot, timestamps increase strictly along the queue (so that, by the proved
+    // lemma, the listing order IS the queue order): then the proved half of C11
     // applies (lemma_c11_listing_is_queue_order + from_snapshot hands out in listing order) and any later divergence
     // of the restored copy is a new violation, not the known finding KF-C11
     let mut twin_comparable = false;
@@ -71,7 +73,7 @@ pub fn run(v: &serde_json::Value, rep: &mut Report) -> Result<(), String> {
     // executable form of the PROVED queue contracts (pop = head of prio, push appends a ticket, remove leaves
     // tickets alone): the ticket list is modelled, the live orders are read back from the real level
     let mut tickets: std::collections::VecDeque<OrderId> = std::collections::VecDeque::new();
-    let mut ob = Obs { price, seq: HashMap::new(), next_seq: 0, supplied: HashMap::new(), filled: HashMap::new(), tx_ids: HashSet::new(), adds: 0, removes: 0, qty_exec: 0, val_exec: 0 };
+    let mut ob = Obs { price, seq: HashMap::new(), next_seq: 0, supplied: HashMap::new(), filled: HashMap::new(), tx_ids: HashSet::new(), adds: 0, removes: 0, qty_exec: 0, val_exec: 0, fate: HashMap::new() };
     for (step, op) in ops.iter().enumerate() {
         let name = op.get("op").and_then(|x| x.as_str()).ok_or("op without name")?;
         let g = |k: &str| op.get(k).and_then(|x| x.as_u64());
@@ -88,6 +90,7 @@ pub fn run(v: &serde_json::Value, rep: &mut Report) -> Result<(), String> {
                 ob.seq.insert(o.id(), ob.next_seq); ob.next_seq += 1;
                 ob.supplied.insert(o.id(), o.visible_quantity() as u128 + o.hidden_quantity() as u128);
                 ob.filled.insert(o.id(), 0);
+                ob.fate.insert(o.id(), "resting");
                 ob.adds += 1;
             }
             "match" => {
@@ -156,6 +159,7 @@ pub fn run(v: &serde_json::Value, rep: &mut Report) -> Result<(), String> {
                     let f = ob.filled[id]; let s = ob.supplied.get(id).copied().unwrap_or(0);
                     if f > s { rep.violation("C02", "match_order.never_overfilled", format!("step={step} order {id} traded {f} in its lifetime but brought only {s}")); }
                 }
+                c08_after_match(&pre, &post, &r, &mut ob, rep, step);
                 let want_filled: HashSet<OrderId> = traded.iter().filter(|id| !post.contains_key(id)).copied().collect();
                 let got_filled: HashSet<OrderId> = r.filled_order_ids.iter().copied().collect();
                 if want_filled != got_filled || got_filled.len() != r.filled_order_ids.len() { rep.violation("C02", "match_order.filled_ids_exact", format!("step={step} filled_order_ids={:?} but makers that traded and left={:?}", r.filled_order_ids, want_filled)); }
@@ -167,7 +171,7 @@ pub fn run(v: &serde_json::Value, rep: &mut Report) -> Result<(), String> {
                     let b: Vec<(OrderId, u64)> = r2.transactions.as_vec().iter().map(|t| (t.maker_order_id, t.quantity)).collect();
                     if a != b || r2.remaining_quantity != r.remaining_quantity {
                         rep.violation("C11", "restore.same_makers_same_sequence", format!("step={step} original makers={a:?} restored makers={b:?}"));
-                        if twin_comparable { rep.violation("C11", "restore.same_trading_when_listing_is_queue_order", format!("step={step} the snapshot listed the orders in queue order, yet original makers={a:?} restored makers={b:?}")); }
+                        if twin_comparable { rep.violation("C11", "restore.same_trading_when_listing_is_queue_order", format!("step={step} timestamps increased strictly along the queue when the snapshot was taken (so the listing is the queue order), yet original makers={a:?} restored makers={b:?}")); }
                     }
                 }
             }
@@ -198,6 +202,10 @@ pub fn run(v: &serde_json::Value, rep: &mut Report) -> Result<(), String> {
                     if res_o != Ok(Some(pre[&id])) { rep.violation("C07", "update_order.returns_removed_order", format!("step={step} got {res_o:?} want {:?}", pre[&id])); }
                     let mut want = pre.clone(); want.remove(&id);
                     if post != want { rep.violation("C07", "update_order.removes_only_that_order", format!("step={step}")); }
+                    if res_o.as_ref().map_or(false, |x| x.is_some()) {
+                        if ob.fate.get(&id).copied() != Some("resting") { rep.violation("C08", "handout.never_twice", format!("step={step} order {id} handed to a remover but it had already been handed out ({:?})", ob.fate.get(&id))); }
+                        ob.fate.insert(id, "removed");
+                    }
                     ob.removes += 1; ob.seq.remove(&id);
                 } else {
                     // same-price quantity amendment
@@ -230,8 +238,11 @@ pub fn run(v: &serde_json::Value, rep: &mut Report) -> Result<(), String> {
                 {
                     let mut seen: Vec<OrderId> = vec![];
                     for t in tickets.iter() { if a.contains_key(t) && !seen.contains(t) { seen.push(*t); } }
-                    let listed: Vec<OrderId> = level.iter_orders().iter().map(|o| o.id()).collect();
-                    twin_comparable = seen == listed;
+                    // hypothesis of the proved lemma (lemma_c11_listing_is_queue_order): the live orders, in queue order,
+                    // carry strictly increasing timestamps.  It is evaluated on the queue model, NOT on the real listing,
+                    // so that a listing that stops being sorted by timestamp cannot switch the clause off
+                    let ts: Vec<u64> = seen.iter().map(|i| a[i].timestamp()).collect();
+                    twin_comparable = ts.windows(2).all(|w| w[0] < w[1]);
                 }
                 if name == "restore" { tickets = level.iter_orders().iter().map(|o| o.id()).collect(); level = restored; } else { twin = Some((restored, UuidGenerator::new(ns))); }
             }
@@ -244,6 +255,7 @@ pub fn run(v: &serde_json::Value, rep: &mut Report) -> Result<(), String> {
             other => return Err(format!("unknown op {other}")),
         }
         c01(&level, rep, step, name, legs);
+        c08_handout(&level, &ob, rep, step, name);
         let st = level.stats();
         if twin.is_none() && !ops.iter().take(step + 1).any(|o| o.get("op").and_then(|x| x.as_str()) == Some("restore")) {
             if st.orders_added() != ob.adds { rep.violation("C15", "stats.orders_added", format!("step={step} stats={} events={}", st.orders_added(), ob.adds)); }
@@ -252,5 +264,50 @@ pub fn run(v: &serde_json::Value, rep: &mut Report) -> Result<(), String> {
             if st.value_executed() as u128 != ob.val_exec { rep.violation("C15", "stats.value_executed", format!("step={step} stats={} events={}", st.value_executed(), ob.val_exec)); }
         }
     }
+    // C08, sequential form of the drain statement: a sufficiently large match consumes everything displayed and
+    // replenishable; afterwards nothing with displayed quantity is left and the aggregates describe what remains
+    if v.get("drain").and_then(|x| x.as_bool()).unwrap_or(true) {
+        let step = ops.len();
+        let pre = listing(&level);
+        let r = level.match_order(u64::MAX, oid(998_999), &generator);
+        c08_after_match(&pre, &listing(&level), &r, &mut ob, rep, step);
+        for o in level.iter_orders() {
+            if o.visible_quantity() > 0 { rep.violation("C08", "drain.nothing_displayed_left", format!("after a draining match order {} still displays {}", o.id(), o.visible_quantity())); }
+        }
+        let ls = level.iter_orders();
+        let sv: u128 = ls.iter().map(|o| o.visible_quantity() as u128).sum();
+        let sh: u128 = ls.iter().map(|o| o.hidden_quantity() as u128).sum();
+        if level.visible_quantity() as u128 != sv || level.hidden_quantity() as u128 != sh || level.order_count() != ls.len() {
+            rep.violation("C08", "drain.aggregates_describe_remainder", format!("after a draining match: aggregates ({}, {}, {}) but {} orders remain with sums ({sv}, {sh})", level.visible_quantity(), level.hidden_quantity(), level.order_count(), ls.len()));
+        }
+        c08_handout(&level, &ob, rep, step, "drain");
+    }
     Ok(())
+}
+
+/// C08 "handed out exactly once, never to none": every order handed to the level is either still resting (listed)
+/// or was handed to exactly one remover or reported filled by exactly one match
+fn c08_handout(l: &PriceLevel, ob: &Obs, rep: &mut Report, step: usize, what: &str) {
+    let listed: HashSet<OrderId> = l.iter_orders().iter().map(|o| o.id()).collect();
+    let mut ids: Vec<&OrderId> = ob.fate.keys().collect();
+    ids.sort_by_key(|i| i.to_string());
+    for id in ids {
+        let f = ob.fate[id];
+        if f == "resting" && !listed.contains(id) { rep.violation("C08", "handout.never_to_none", format!("step={step} after {what}: order {id} was handed to the level, nobody received it back, and it is no longer resting")); }
+        if f != "resting" && listed.contains(id) { rep.violation("C08", "handout.never_twice", format!("step={step} after {what}: order {id} was handed out ({f}) and is still resting")); }
+    }
+}
+
+/// the orders a match took for good: reported filled, or empty ones (nothing displayed, nothing to replenish from,
+/// decided by the real match_against) which the matcher discards without a transaction
+fn c08_after_match(pre: &HashMap<OrderId, O>, post: &HashMap<OrderId, O>, r: &pricelevel::MatchResult, ob: &mut Obs, rep: &mut Report, step: usize) {
+    for id in &r.filled_order_ids {
+        if ob.fate.get(id).copied() != Some("resting") { rep.violation("C08", "handout.never_twice", format!("step={step} order {id} reported filled but it had already been handed out ({:?})", ob.fate.get(id))); }
+        ob.fate.insert(*id, "filled");
+    }
+    for (id, o) in pre {
+        if post.contains_key(id) || r.filled_order_ids.contains(id) { continue; }
+        let (c, u, _, _) = o.match_against(1);
+        if c == 0 && u.is_none() { ob.fate.insert(*id, "discarded-empty"); }
+    }
 }
